@@ -1,4 +1,5 @@
 SPECIFICATION Spec
 CONSTANTS
+  PairInit = FALSE
   MaxSteps = 2
 INVARIANT Neg_ModeNeverMatters
